@@ -252,6 +252,14 @@ def DEFAULT_OF(ty):
     return {"int": "0", "bool": "false", "str": "[]", "nat": "0"}[ty]
 
 
+def pure_lookup(e):
+    """an expression that only reads: a dotted path, or `<dotted path>.get(<name or constant>)`"""
+    if dotted(e):
+        return True
+    return isinstance(e, ast.Call) and isinstance(e.func, ast.Attribute) and e.func.attr == "get" and dotted(e.func.value) is not None \
+        and len(e.args) == 1 and not e.keywords and isinstance(e.args[0], (ast.Name, ast.Constant))
+
+
 def message_only(name, stmts):
     """is every use of `name` in the statements inside a statement the translation drops (click.echo / logging.* calls, the argument of a raise),
     with at least one such use, and is it never re-assigned there?"""
@@ -2144,6 +2152,27 @@ class Kernel:
             return self.block(list(fn.body) + rest, env, loop)
         if any(ast.unparse(s).startswith(pfx) for pfx in self.spec.get("skip_statements", [])):
             return self.block(rest, env, loop)        # statements the kernel's spec lists as not translated (floats / reporting), see IMP_KERNELS
+        # NORMAL FORM: `tmp = <pure lookup>; tmp.m(…)…` where tmp is used exactly once, as the HEAD of the next statement's call chain (the first thing that
+        # statement evaluates), and never again: the lookup is written back in place (so `d = self.data.get(k); d.setdefault(…).append(x)` and the
+        # one-line spelling give the same Lean text)
+        if isinstance(s, ast.Assign) and len(s.targets) == 1 and isinstance(s.targets[0], ast.Name) and rest and isinstance(rest[0], ast.Expr) \
+                and isinstance(rest[0].value, ast.Call) and pure_lookup(s.value):
+            tmp = s.targets[0].id
+            head = rest[0].value
+            while True:
+                if isinstance(head, ast.Call):
+                    head = head.func
+                elif isinstance(head, ast.Attribute):
+                    head = head.value
+                else:
+                    break
+            uses = [n for st in rest for n in ast.walk(st) if isinstance(n, ast.Name) and n.id == tmp]
+            if isinstance(head, ast.Name) and head.id == tmp and len(uses) == 1 and tmp not in env:
+                class Sub(ast.NodeTransformer):
+                    def visit_Name(self, node):
+                        return s.value if node.id == tmp else node
+                new0 = Sub().visit(ast.parse(ast.unparse(rest[0])).body[0])
+                return self.block([new0] + rest[1:], env, loop)
         # a text that only the (dropped) messages for the user read: `report = f"…"; click.echo(report)`
         if isinstance(s, ast.Assign) and len(s.targets) == 1 and isinstance(s.targets[0], ast.Name) and isinstance(s.value, ast.JoinedStr) and rest \
                 and message_only(s.targets[0].id, rest):
@@ -3052,6 +3081,65 @@ class Kernel:
                 s = ast.While(test=s.body[0].test.operand, body=s.body[1:], orelse=[])
             elif isinstance(t, ast.NamedExpr):
                 s = ast.While(test=ast.Constant(value=True), body=[ast.If(test=t, body=s.body, orelse=[ast.Break()])], orelse=[])
+        if is_for and isinstance(s.iter, ast.Call) and isinstance(s.iter.func, ast.Name) and s.iter.func.id == "enumerate" and len(s.iter.args) == 1 \
+                and [k.arg for k in s.iter.keywords] == ["start"] and isinstance(s.iter.keywords[0].value, ast.Constant) \
+                and isinstance(s.iter.keywords[0].value.value, int) and isinstance(s.target, ast.Tuple) and len(s.target.elts) == 2 \
+                and all(isinstance(x, ast.Name) for x in s.target.elts):
+            # NORMAL FORM: `for j, x in enumerate(xs, start=k)` is `for i, x in enumerate(xs)` with every `j` read as `i + k`
+            j, k_ = s.target.elts[0].id, s.iter.keywords[0].value.value
+            if any(isinstance(n, ast.Name) and n.id == j and isinstance(n.ctx, ast.Store) for st in s.body for n in ast.walk(st)):
+                raise Unsupported("the counter of enumerate(start=…) is re-assigned")
+
+            class Shift(ast.NodeTransformer):
+                def visit_Name(self, node):
+                    if node.id == j and isinstance(node.ctx, ast.Load):
+                        return ast.BinOp(left=ast.Name(id="i", ctx=ast.Load()), op=ast.Add(), right=ast.Constant(value=k_))
+                    return node
+            if any(isinstance(n, ast.Name) and n.id == "i" for st in s.body for n in ast.walk(st)) or "i" in env:
+                raise Unsupported("enumerate(start=…): the name `i` is taken")
+            body2 = [Shift().visit(ast.parse(ast.unparse(st)).body[0]) for st in s.body]
+            s = ast.For(target=ast.Tuple(elts=[ast.Name(id="i", ctx=ast.Store()), s.target.elts[1]], ctx=ast.Store()),
+                        iter=ast.Call(func=s.iter.func, args=s.iter.args, keywords=[]), body=body2, orelse=[])
+        if not is_for and isinstance(s.test, ast.Constant) and s.test.value is True:
+            # NORMAL FORM: a `while True:` without `break` whose every `return` (outside nested loops) is `return x` for one name x: nothing after it is
+            # reachable, and it is the same as the loop with `break` in their place followed by `return x`
+            def top_nodes(stmts):
+                for st in stmts:
+                    stack = [st]
+                    while stack:
+                        n = stack.pop()
+                        yield n
+                        for ch in ast.iter_child_nodes(n):
+                            if not isinstance(ch, (ast.For, ast.While, ast.FunctionDef)):
+                                stack.append(ch)
+                            elif isinstance(ch, (ast.For, ast.While)):
+                                # returns inside a nested loop leave the function too, but cannot become `break`
+                                for m in ast.walk(ch):
+                                    if isinstance(m, ast.Return):
+                                        yield ast.Return(value=None)
+            tn = list(top_nodes(s.body))
+            rets = [n for n in tn if isinstance(n, ast.Return)]
+            if not any(isinstance(n, ast.Break) for n in tn) and rets and all(isinstance(r.value, ast.Name) for r in rets) \
+                    and len({r.value.id for r in rets}) == 1:
+                rest = [ast.Return(value=ast.Name(id=rets[0].value.id, ctx=ast.Load()))]
+        if rest and isinstance(rest[0], ast.Return) and isinstance(rest[0].value, ast.Name):
+            # NORMAL FORM: `return x` inside the loop (not in a nested loop) when the statement after the loop is `return x`: the same as `break`
+            x_ = rest[0].value.id
+
+            class Brk(ast.NodeTransformer):
+                def visit_For(self, node):
+                    return node
+                def visit_While(self, node):
+                    return node
+                def visit_FunctionDef(self, node):
+                    return node
+                def visit_Return(self, node):
+                    if isinstance(node.value, ast.Name) and node.value.id == x_:
+                        return ast.Break()
+                    return node
+            new_body = [Brk().visit(ast.parse(ast.unparse(st)).body[0]) for st in s.body]
+            if ast.dump(ast.Module(body=new_body, type_ignores=[])) != ast.dump(ast.Module(body=list(s.body), type_ignores=[])):
+                s = (ast.For(target=s.target, iter=s.iter, body=new_body, orelse=[]) if is_for else ast.While(test=s.test, body=new_body, orelse=[]))
         binds = []
         env_body = dict(env)
         loopvars = []
@@ -3118,6 +3206,10 @@ class Kernel:
                 raise Unsupported("range() step")
             env_body[s.target.id] = "int"
             return src, L("int"), f"({mg(s.target.id)} : Int)"
+        if isinstance(it, ast.Call) and isinstance(it.func, ast.Name) and it.func.id == "enumerate" and len(it.args) == 1 \
+                and [k.arg for k in it.keywords] == ["start"] and isinstance(it.keywords[0].value, ast.Constant) and isinstance(it.keywords[0].value.value, int) \
+                and isinstance(s.target, ast.Tuple) and len(s.target.elts) == 2 and all(isinstance(x, ast.Name) for x in s.target.elts):
+            raise Unsupported("internal: enumerate(start=…) must have been normalised by loop_stmt")
         if isinstance(it, ast.Call) and isinstance(it.func, ast.Name) and it.func.id == "enumerate" and len(it.args) == 1 and not it.keywords \
                 and isinstance(s.target, ast.Tuple) and len(s.target.elts) == 2 and all(isinstance(x, ast.Name) for x in s.target.elts):
             t, ty = self.expr(it.args[0], env, binds)
@@ -3713,8 +3805,63 @@ def truthiness_guard():
     return bad
 
 
+def order_guard():
+    """`BuildAssembly.scaffolds` (the list `self.add_scaffold` appends to) is not carried as a list by the translation of phase 1: a result that was
+    added is MARKED in the store (`PyRt.markAdded`), left-overs are listed in `added_lo`, and phase 2 is handed "the added results in store order, then
+    the left-overs" (Proofs/ImpPhase2.lean, `phase2Scaffolds`).  That is the order of the appends only while (1) `self.add_scaffold` is called in exactly
+    two methods of the class: `find_assembly_overlaps`, on the very object `input_asm.find_overlaps(…)` returned in the same pass of the loop (so results
+    are appended in the order they are allocated), and `add_missing_scaffolds_from_input`; (2) `add_scaffold` is `self.scaffolds.append(…)`; (3) nothing
+    else in the package mutates `.scaffolds` of the BuildAssembly (no `insert`, `sort`, `reverse`, `pop`, `remove`, `del`, assignment) outside `__init__`.
+    Checked here on the current source; otherwise every kernel is refused.  (The order of the two CALLS inside `remap_to_input_assembly` is in the
+    translated driver itself.)"""
+    bad = []
+    try:
+        tree = ast.parse((SRC / "assembly" / "build_assembly.py").read_text())
+        cls = find_def(tree, "BuildAssembly")
+        asm_tree = ast.parse((SRC / "assembly" / "assembly.py").read_text())
+        add = find_def(asm_tree, "Assembly.add_scaffold")
+    except Exception as e:
+        return [f"cannot parse ({e!r})"]
+    if cls is None or add is None:
+        return ["BuildAssembly / Assembly.add_scaffold not found"]
+    if find_def(tree, "BuildAssembly.add_scaffold") is not None:
+        bad.append("BuildAssembly overrides add_scaffold")
+    body = [st for st in add.body if not (isinstance(st, ast.Expr) and isinstance(st.value, ast.Constant))]
+    if not (len(body) == 1 and ast.unparse(body[0]) == f"self.scaffolds.append({add.args.args[1].arg})"):
+        bad.append("Assembly.add_scaffold is not `self.scaffolds.append(x)`")
+    for m in cls.body:
+        if not isinstance(m, ast.FunctionDef):
+            continue
+        calls_ = [n for n in ast.walk(m) if isinstance(n, ast.Call) and dotted(n.func) == "self.add_scaffold"]
+        if calls_ and m.name not in ("find_assembly_overlaps", "add_missing_scaffolds_from_input"):
+            bad.append(f"self.add_scaffold called in {m.name}")
+        if m.name == "find_assembly_overlaps":
+            walrus = [n.target.id for n in ast.walk(m) if isinstance(n, ast.NamedExpr) and isinstance(n.value, ast.Call) and dotted(n.value.func) == "input_asm.find_overlaps"]
+            for c in calls_:
+                if not (len(c.args) == 1 and isinstance(c.args[0], ast.Name) and c.args[0].id in walrus):
+                    bad.append("find_assembly_overlaps adds something other than the result just found")
+        if m.name != "__init__":
+            for n in ast.walk(m):
+                if isinstance(n, ast.Call) and isinstance(n.func, ast.Attribute) and dotted(n.func.value) == "self.scaffolds" \
+                        and n.func.attr in ("insert", "sort", "reverse", "pop", "remove", "clear", "extend", "append"):
+                    bad.append(f"self.scaffolds.{n.func.attr} in {m.name}")
+                if isinstance(n, (ast.Assign, ast.AugAssign, ast.Delete)):
+                    for t in (n.targets if not isinstance(n, ast.AugAssign) else [n.target]):
+                        root = t.value if isinstance(t, ast.Subscript) else t
+                        if dotted(root) == "self.scaffolds":
+                            bad.append(f"self.scaffolds re-bound or edited in {m.name}")
+    return bad
+
+
 def main():
     bad = truthiness_guard()
+    bad2 = order_guard()
+    if bad2:
+        txt = ("/- GENERATED by harness/translate_imp.py — REFUSED: the order of `BuildAssembly.scaffolds` is no longer what the translation assumes: "
+               + "; ".join(bad2) + " -/\nimport AgpTpf.Model.PyRt\nnamespace AgpTpf.Gen.Imp\ndef ORDER_GUARD_FAILED : Unit := ()\nend AgpTpf.Gen.Imp\n")
+        if not OUT.exists() or OUT.read_text() != txt:
+            OUT.write_text(txt)
+        return 0
     if bad:
         txt = ("/- GENERATED by harness/translate_imp.py — REFUSED: " + ", ".join(bad) + " is defined; the translation of truthiness tests on objects "
                "assumes these classes are always truthy -/\nimport AgpTpf.Model.PyRt\nnamespace AgpTpf.Gen.Imp\ndef TRUTHINESS_GUARD_FAILED : Unit := ()\nend AgpTpf.Gen.Imp\n")
